@@ -145,6 +145,72 @@ claim('C20', 'other',
       "sibling agreement of normalised expression trees + invariant classification + loop-extent rules",
       "DESIGN.md section 4 C20")
 
+claim('C08', 'other',
+      "Order rules on the CFG of both updatePlan specialisations: scan from begin() only while the iterator is valid and its origin "
+      "is active, firing only under the success test of the same iterator and with the task origin as caller, remove after fire, "
+      "exactly-once success consumption, deferred consumption after the scan; who-may-call and position of the plan step; the leaf "
+      "status mapping on its truth table, maxima for the status operators; exhaustive comparison-domain evaluation of the scan's "
+      "activity predicate (origin 0 included); sibling agreement of the two specialisations.",
+      "The order in which tasks are visited relies on the plan list (C10 residue). Assumes A1-A3.",
+      "CFG dominance / control-dependence rules + comparison-domain evaluation + sibling agreement",
+      "DESIGN.md section 4 C08")
+
+claim('C09', 'other',
+      "Control-dependence rules: planFailed only on the FAILURE edge, planSucceeded only on (not FAILURE, SUCCESS, plan empty), no "
+      "firing in the failure branch, plan cleared after each callback (all tasks, both status bits of every state); the plan step "
+      "is gated by planExists whose only writers are append (true) and clear (false); definite initialisation of every scalar "
+      "member makes the outcome independent of the memory the instance is built in; failure priority table.",
+      "Assumes A1-A3.",
+      "CFG control-dependence rules + who-may-call + definite-initialisation rule",
+      "DESIGN.md section 4 C09")
+
+claim('C10', 'other',
+      "Decides necessary structural conditions: capacity tests dominate every write of task storage and the full path is "
+      "write-free; per-path effect sets of linkTask and PlanT::remove (four neighbour cases); exactly-once count updates; the three "
+      "iterator types cache the successor before removal and agree; interval reasoning on the slot allocator's grow branch. "
+      "Integrity of the intrusive free list over every history and capacity is NOT decided.",
+      "Residue: free-list shape invariant (would need relational shape analysis or state enumeration = another family).",
+      "CFG dominance rules + per-path effect sets + sibling agreement + local interval analysis",
+      "DESIGN.md section 4 C10")
+
+claim('C12', 'other',
+      "Writer/reader field tables extracted from the CFGs of save()/load() agree per activation mode; only the activity bit and "
+      "registry.active are written, into a buffer cleared first; type-level capacity facts for every N in 1..255 (thorough) / 31 "
+      "sizes (quick); save() const and effect-free on the machine; load() interpreted abstractly for active and inactive loaders: "
+      "exactly the C01 transitions, entering the state read, no guards.",
+      "Assumes the buffer passed to load() was produced by save() of the same machine type (A3).",
+      "CFG path tables + static_assert obligations + abstract interpretation + effect sets",
+      "DESIGN.md section 4 C12")
+
+claim('C13', 'other',
+      "bitWidth decided for all 2^32 arguments by evaluating the extracted expression on the end points of its own 33 threshold "
+      "regions (after checking the argument is used in threshold tests only); cursor/width lock-step rule (cursor advances by "
+      "exactly N, contiguous fields); writer/reader agreement on byte index, chunk start, chunk width, LSB-first, OR into a cleared "
+      "buffer; type-level: the width derived for every state count 1..255 suffices. The value-level round trip and write locality "
+      "are NOT decided.",
+      "Residue: integer arithmetic over shifts/truncations (no usable sound tool here).",
+      "threshold-partition evaluation + structural rules on normalised expression trees + static_assert obligations",
+      "DESIGN.md section 4 C13")
+
+claim('C16', 'other',
+      "Every S_ wrapper emits exactly one method record (right state id and Method enumerator) on the logger edge before any user "
+      "code; for states that define the callback the selected log() overload records unconditionally; request writers, "
+      "cancellations and status reports log exactly their own arguments once; the logger slot only ever guards a single record "
+      "call with side-effect-free arguments; all function bodies are identical with logging off / interface / verbose after "
+      "erasing exactly those statements.",
+      "Assumes the user's logger implementation does not call back into the machine (A2).",
+      "CFG order rules + argument agreement + effect rule + differential comparison of extracted bodies",
+      "DESIGN.md section 4 C16")
+
+claim('C18', 'other',
+      "Allocation-freedom from the AST (placement new only, no delete, allowed externals) cross-checked on the undefined symbols "
+      "of compiled witness objects; payload/member alignment from the record layout; definite initialisation; constant or locally "
+      "bounded shift amounts; positive extents; reinterpret_cast only on payload storage; interval reasoning on locally guarded "
+      "subscripts. Absence of out-of-bounds accesses for all histories is NOT decided (unguarded subscripts are counted as 'no verdict').",
+      "Residue: value ranges of indices kept by data-structure invariants.",
+      "AST effect rules + object symbol table + record layout + local interval analysis",
+      "DESIGN.md section 4 C18")
+
 ALL = ['C%02d' % i for i in range(1, 21)]
 for p in ALL:
     if p not in CLAIMED:
